@@ -355,8 +355,8 @@ def scan_history(ctx, n):
             again = scan.real_scan(base_a, root, (root,))
             ctx.evaluations += 3 + len(sub)
             if again[0] != "OK" or (first[1], first[2]) != (again[1], again[2]):
-                ctx.violation(dict(dirs=[list(d) for d in dirs], files={scan.dotted(f): (scan.render_file(v["body"]) if v["py"] else None) for f, v in files.items()},
-                                   files_of_interleaved_scan={scan.dotted(f): (scan.render_file(v["body"]) if v["py"] else None) for f, v in files_b.items()},
+                ctx.violation(dict(dirs=[list(d) for d in dirs], files={scan.dotted(f): (scan.render_v(v) if v["py"] else None) for f, v in files.items()},
+                                   files_of_interleaved_scan={scan.dotted(f): (scan.render_v(v) if v["py"] else None) for f, v in files_b.items()},
                                    edges_lost=sorted(set(first[2]) - set(again[2] or []))[:5], edges_gained=sorted(set(again[2] or []) - set(first[2]))[:5]),
                               "a scan of the same tree differs after other scans in the same interpreter", {"kind": "scan_history"})
             if first[2]:
